@@ -337,7 +337,7 @@ def case_ir(c, resp, tables=None):
     chars = sorted(sc.closure(set("".join(ss)))) if casing else []
     ups = [P(("n", ord(ch)), S(sc.ORACLE["chars"][ch][0])) for ch in chars if sc.ORACLE["chars"][ch][0] != ch]
     los = [P(("n", ord(ch)), S(sc.ORACLE["chars"][ch][1])) for ch in chars if sc.ORACLE["chars"][ch][1] != ch]
-    parts = [P(S(name), None if isinstance(src, str) else body_ir(src)) for name, src in (c.get("partials") or [])]
+    parts = [P(S(name), None if isinstance(src, str) else ("some", body_ir(src))) for name, src in (c.get("partials") or [])]
     budget = None if c.get("budget") is None else ("some", ("nat", c["budget"]))
     return R("mkR", body_ir(c["tpl"]), obj_ir(c.get("data", [])), parts, shows, parses, ups, los, [], budget, ("n", cls), S(acc or ""))
 
